@@ -79,6 +79,10 @@ let () =
       | Some (k, cls, fnd) ->
         (match div with
          | Some d when divergence_index d < k -> mismatch id d
+         | Some d when divergence_index d = k ->
+           (* the faithful model does not reproduce this panic: whatever the classifier says, it is
+              not one of the recorded defects of the modelled algorithm *)
+           specfail id (Printf.sprintf "api_call_panicked:op%d:%s:not_reproduced_by_the_model" k cls)
          | _ ->
            specfail id (Printf.sprintf "api_call_panicked:op%d:%s%s" k cls
                           (match fnd with Some d -> "\tfinding=" ^ d | None -> "")))
